@@ -165,3 +165,56 @@ func VH_C06_TailBusy() {
 	}
 	p.shutdown()
 }
+
+// VH_C06_AckLoss: a burst of m messages (m up to window+2, so that the
+// sequence numbers wrap) is delivered, but a run of the receiver's answers -
+// answers number from..to-1, symbolic - is lost; afterwards the transport is
+// reliable. Every window size 1..maxn, static or adaptive timeout. All
+// messages are delivered, and once everything is acknowledged the sender
+// stops retransmitting (tail of the burst acknowledged only implicitly).
+func VH_C06_AckLoss() {
+	n := uint8(vIntRange("n", 1, vParam("maxn", 3)))
+	var opts []TimeoutOptions
+	if vBool("static") {
+		opts = append(opts, WithStaticResendTimeout(time.Second))
+	}
+	p := vConnect(n, 0, opts...)
+	vAssert(p.cliErr == nil && p.srvErr == nil, "clean handshake failed")
+	if p.cliErr != nil || p.srvErr != nil {
+		return
+	}
+	m := vIntRange("msgs", 1, int(n)+2)
+	from := vIntRange("lost_from", 0, m-1)
+	to := vIntRange("lost_to", from+1, m+vParam("extra_lost", 2))
+	p.s2c.dropFrom, p.s2c.dropTo = from, to
+	p.arm()
+	up := vMsgs("up", m)
+	errs := make(chan error, 1)
+	gotS := make(chan [][]byte, 1)
+	go vSender(p.cli, up, errs)
+	go vReceiver(p.srv, m, gotS)
+	select {
+	case rs := <-gotS:
+		vAssert(len(rs) == m && vIsPrefix(rs, up), "server did not receive the client's messages")
+	case <-time.After(time.Duration(vParam("horizon_s", 300)) * time.Second):
+		vAssert(false, "accepted messages not delivered after the acknowledgement losses ended")
+		p.shutdown()
+		return
+	}
+	select {
+	case err := <-errs:
+		vAssert(err == nil, "Send failed although nobody closed the connection")
+	case <-time.After(time.Duration(vParam("horizon_s", 300)) * time.Second):
+		vAssert(false, "Send still blocked long after everything was delivered (window never freed)")
+		p.shutdown()
+		return
+	}
+	vReach("ackloss-delivered")
+	time.Sleep(60 * time.Second)
+	c0 := len(p.c2s.wire)
+	time.Sleep(120 * time.Second)
+	vReach("ackloss-quiet")
+	vAssert(len(p.c2s.wire) == c0, "sender keeps retransmitting although everything was delivered and the losses ended")
+	vAssert(p.cli.sendQueue.size() == 0, "send queue not empty although everything was delivered and acknowledged")
+	p.shutdown()
+}
